@@ -211,3 +211,34 @@ package ischema
 //@   ensures n in s.types && s.types[n] == t
 //@   ensures forall k string :: k != n ==> ((k in s.types) == old(k in s.types)) && s.types[k] == old(s.types[k])
 //@   no_panic
+
+// ---- properties of an object node (C07): a key is recorded with the position of the child it names -------------------
+// The keys of an object are kept in order of appearance; each carries the index of its child in n.children. Looking a key
+// up goes through that index, so a key recorded with a foreign index silently names another property.
+
+//@ func (*ObjectNodeKeys).Set
+//@   property C07
+//@   requires k != nil && k.index != nil
+//@   modifies k.Data, elems(k.Data), mapof(k.index)
+//@   ensures len(k.Data) == old(len(k.Data)) + 1 && k.Data[len(k.Data)-1] == v
+//@   ensures forall i :: 0 <= i && i < old(len(k.Data)) ==> k.Data[i] == old(k.Data[i])
+//@   ensures k.Data.arr == old(k.Data.arr) || fresh(k.Data)
+
+//@ func (*ObjectNode).AddKey
+//@   property C07
+//@   requires n != nil && n.keys != nil && n.keys.index != nil
+//@   modifies n.keys.Data, elems(n.keys.Data), mapof(n.keys.index)
+//@   ensures len(n.keys.Data) == old(len(n.keys.Data)) + 1
+//@   ensures n.keys.Data[len(n.keys.Data)-1].Key == key && n.keys.Data[len(n.keys.Data)-1].IsShortcut == isShortcut && n.keys.Data[len(n.keys.Data)-1].Index == len(n.children)
+//@   ensures forall i :: 0 <= i && i < old(len(n.keys.Data)) ==> n.keys.Data[i] == old(n.keys.Data[i])
+//@   ensures n.keys.Data.arr == old(n.keys.Data.arr) || fresh(n.keys.Data)
+
+// an inherited (or loaded) property is appended after the existing ones, and its key names exactly the child appended
+//@ func (*ObjectNode).AddChild
+//@   property C07
+//@   requires n != nil && n.keys != nil && n.keys.index != nil && child != nil
+//@   modifies anything()
+//@   may_panic
+//-  (stated where the child is about to be appended: what follows sets the child's parent through an embedded struct, outside the verifier's subset)
+//@   at call:addChild assert len(n.keys.Data) == old(len(n.keys.Data)) + 1 && n.keys.Data[len(n.keys.Data)-1].Index == len(n.children) && len(n.children) == old(len(n.children))
+//@   at call:addChild assert n.keys.Data[len(n.keys.Data)-1].Key == key.Key && n.keys.Data[len(n.keys.Data)-1].IsShortcut == key.IsShortcut
